@@ -711,7 +711,7 @@ MANIFEST_ENTRY = dict(
               'frame and definite-assignment obligations, program-algebra wiring; bounded run-time contracts for the assembled statistics',
     text='Proved for all inputs (2-3 parameters, all eps != 0): hessian_elem returns H_ij on every quadratic in all four branches, get_grad is '
          'exact on quadratics (central) and linear functions (one-sided), get_hess is exact on every step-rule path and hands hessian_elem the '
-         'documented step sizes; p0/eps are not mutated; sum_chi2_ppf reads no unassigned local for scalar or array input; multinomial theta '
+         'documented step sizes; p0/eps are not mutated and the perturbed vectors are float arrays whatever element type the caller passes; sum_chi2_ppf reads no unassigned local for scalar or array input; multinomial theta '
          'augmentation and the H/J/cU/G assembly are wired as documented; the likelihood closure is ll(adjust * model, data) with the model evaluated once '
          'per point and the cached spectrum left unmodified. Closed-form FIM/GIM/LRT/Wald/score values (O(eps^2)), bootstrap-order '
          'independence and cache-sharing call sequences are bounded run-time checks (not proofs).',
